@@ -1028,13 +1028,14 @@ def _module_for_text(cd, text, postponed=True):
 
 
 def _ev_entry(mod, text):
+    # (the names of typing are the lowest-priority base of the namespace, the module's own names win: fix 2754edb)
     ns = {"typing": typing, **vars(typing), "list": list, "tuple": tuple}
     class _T:
         pass
 
     _T.__annotations__ = {"x": text}
     try:
-        v = typing.get_type_hints(_T, globalns=dict(vars(mod)), localns=ns)["x"]
+        v = typing.get_type_hints(_T, globalns={**ns, **vars(mod)}, localns={})["x"]
     except TypeError:
         return {"o": "typeError"}
     except BaseException:  # noqa: BLE001
